@@ -75,6 +75,11 @@ stores that test `t.id in <id set built from the selection>` are interpreted (C1
 local closure with an append loop (if/elif, guard clause + continue, body locals) are executed symbolically into the
 comprehension they compute (clone_common._loop_as_comprehension), so `map.get(x.id)`-first helpers are REFUTED as "outside task
 looked up by id" (C10-r91); attribute names memoised on the class are REFUTED (C10-r92); worklist form of _attach.
+Round 10: `independence` also REFUTES a validation of incoming link ends by id in the dependency setters (`v.id in <ids of the
+ancestors>`; C10-r103) and follows a mirror-list alias chosen by a constant flag (spliced `forward` parameter);
+`outside_links_by_identity` REFUTES an owner test written with `!=` / `==` once WBS defines `__eq__` (C10-r101);
+`WBS(**<the source's own __dict__>)` is REFUTED in wbs-attrs (kwargs go to the hidden root task; C10-r42), other keyword-only
+constructor calls are an empty new WBS, `**` of unknown origin is UNDECIDED (no claim: C07-r102).
 Not decided (C10-r71): duplicate / overlapping roots handed to the children setter - the outcome depends on the counting
 logic of task._has_id_intersection (id-uniqueness check, C05), which this module does not read.
 
@@ -210,6 +215,13 @@ def _owner(ctx, o):
                  "assigning children never reaches Task._attach: tasks attached under the new WBS's sentinel keep owner None")
 
 
+def _fold_const(e):
+    """`A if <constant> else B` -> the branch taken (left behind when a helper with a boolean parameter was spliced)"""
+    while isinstance(e, ast.IfExp) and isinstance(e.test, ast.Constant):
+        e = e.body if e.test.value else e.orelse
+    return e
+
+
 def _independence(ctx, o):
     """clone()/subtree() keep links to tasks outside the source WBS on BOTH the source task and its copy (same id).  When one of
     them is unlinked later, the setter must take exactly that object out of the outside task's mirror list."""
@@ -223,7 +235,12 @@ def _independence(ctx, o):
         seen = False
         for c in walk_no_nested(fn.node):
             if isinstance(c, ast.Call) and isinstance(c.func, ast.Attribute) and c.func.attr in ('remove', 'discard') and len(c.args) == 1:
-                recv = ex.expand(c.func.value, cfg.node_containing(c))       # the mirror list may be hoisted into a local alias
+                recv = _fold_const(ex.expand(c.func.value, cfg.node_containing(c)))   # the mirror list may be hoisted into a local alias
+                if isinstance(recv, ast.Name):
+                    # alias chosen by a constant flag (spliced `forward` parameter):  mirror = v.__preds if False else v.__succs
+                    rd = [d for d in ex.flow.reaching(recv.id, cfg.node_containing(c))]
+                    if len(rd) == 1 and rd[0].kind == 'assign' and rd[0].value is not None:
+                        recv = _fold_const(rd[0].value)
                 if not (isinstance(recv, ast.Attribute) and recv.attr == mirror):
                     continue
                 if isinstance(c.args[0], ast.Name) and c.args[0].id == sn and not has_eq:
@@ -259,6 +276,20 @@ def _independence(ctx, o):
                 if mi and pol:
                     o.site(fn, st, f"old links: {unmangle(mirror)} rebuilt without this very object (`{src(atom)}`)")
                     seen = True
+        # the link ends handed to the setter may be tasks OUTSIDE the WBS (clone()/subtree() keep them as themselves): a validation
+        # that identifies them by id confuses an outside task with a member that has the same id
+        for gd in facts.guards_of(prog, fn, ctx.typer):
+            bound = {n.id for tg, _ in gd.binders for n in ast.walk(tg) if isinstance(n, ast.Name)}
+            for t_, pol_ in gd.conds:
+                for atom, apol in facts.split_conj(t_, pol_):
+                    m = match("$x.id in $c", atom) or match("$x.id == $y.id", atom) or match("$y.id == $x.id", atom)
+                    if m and apol and isinstance(m['x'], ast.Name) and m['x'].id in bound and m['x'].id != sn:
+                        o.refute(fn, gd.node, f"{src(atom)[:60]} [link end validated by id]",
+                                 f"Task.{fn.name} setter rejects a new link end when `{src(atom)[:70]}`, i.e. by comparing IDS: the link ends "
+                                 f"include tasks outside the WBS (clone()/subtree() hand them to the copies as themselves) and ids are unique "
+                                 f"inside one WBS only, so an outside task that shares its id with an ancestor / descendant of the task makes "
+                                 f"clone()/subtree() of a valid WBS raise; compare the task objects (`v in parents`)")
+                        seen = True
         if not seen:
             o.undecided(fn, fn.node, f"{fn.name} unlink", f"cannot see how Task.{fn.name} setter takes the task out of the {unmangle(mirror)} "
                                                           f"of its former links (expected `.remove(self)` or a rebuild filtered by `is not self`)")
